@@ -52,6 +52,8 @@ def clHandle (st : Option Client) (ws : List String) : Option Client × String :
     | none => (st, "bad-op")
   | ["obs"] => match st with | some c => (st, clObs c) | none => (st, "bad-op")
   | ["wipe"] => match st with | some c => (some (wipeOnConnect c), "ok") | none => (st, "bad-op")
+  | ["track", "on"] => match st with | some c => (some (enableTracking c), "ok") | none => (st, "bad-op")
+  | ["track", "off"] => match st with | some c => (some (disableTracking c), "ok") | none => (st, "bad-op")
   | "in" :: "line" :: lw =>
     match st, lineDecode lw with
     | some c, some l => let r := dispatchInternal c l; (some r.c, encHR r)
